@@ -3,7 +3,16 @@
 set -u
 PATCH=$1; shift
 cd /repo && git status --short | grep -q . && { echo "/repo not clean"; exit 2; }
-git apply "$PATCH" 2>/dev/null || patch -p1 --fuzz=3 -s < "$PATCH" || { echo "patch does not apply"; git checkout -q -- .; exit 2; }
+if ! git apply "$PATCH" 2>/dev/null; then
+  if true; then
+    # (never patch with fuzz: it can silently put the hunk in the wrong place)  the change rewrites code around the cfg-guarded hook lines: take the touched files as they were before the hook commits
+    # (the hooks in those files are lost, exactly as they would be in such a rewrite) and apply the change to that
+    git checkout -q -- .; find . \( -name '*.orig' -o -name '*.rej' \) -not -path './target/*' -delete
+    for f in $(grep -E '^\+\+\+ b/' "$PATCH" | sed 's#^+++ b/##'); do git show 3e8c7e9:"$f" > "$f"; done
+    git apply "$PATCH" || { echo "patch does not apply"; git checkout -q -- .; exit 2; }
+    echo "NOTE applied on the pre-hook version of the touched files (hooks in those files dropped)"
+  fi
+fi
 find . -name '*.orig' -not -path './target/*' -delete
 (cargo build --offline -q 2>&1 | grep -E '^error' | head -3)
 cd /verif
